@@ -70,7 +70,8 @@ class HttpWebServerBasePlugin(DescriptorsHandlerMixin, ABC):
                 # TODO: Should we really close or take advantage of keep-alive?
                 conn_close=True,
             )
-        except OSError:
+        except (OSError, ValueError):
+            # ValueError: path contains a NUL byte
             return NOT_FOUND_RESPONSE_PKT
 
     def name(self) -> str:
